@@ -14,9 +14,13 @@ Model of the request-id machinery of `/repo/ak/conn_http.py` (C16).
   it is `runSched` on the expanded schedule.
 * `render` — the id format (`"{}{}-0000-0000-0000-{}".format(conn, "{:04}".format(n%10000),
   "{:012}".format(n))`), as a list of pieces generated from the source.
-* `World` / `request` — `do_request`'s id branch on connections sharing implementation objects
-  (`conn_impl`): counter `None` → nothing is added; a header whose name satisfies the generated test
-  (`Gen.C16.hdrTest`) → untouched; otherwise one run of the program on the shared counter.
+* `World` / `request` — `do_request` as far as headers go, on connections sharing implementation
+  objects (`conn_impl`) and a heap of caller-owned header dicts: `RequestArguments` copies the caller's
+  dict (`Gen.C16.hdrInit`), the authenticating adapters add `Authorization`, then the id branch
+  (`idBranch`): counter `None` → nothing is added; a header whose name satisfies the generated test
+  (`Gen.C16.hdrTest`) → untouched; otherwise one run of the program on the shared counter; finally the
+  json content type.  `wrap` builds a derived connection through the constructor of a class
+  (`Gen.C16.wrapKinds`: which constructors hand the parent's `conn_impl` on).
   What `urllib.request.Request` sends under `X-request-id` is the value of the *last* header whose
   `capitalize()`d name is that one (`sentId`).
 
@@ -209,45 +213,125 @@ structure Impl where
   ctr : Option Nat              -- `_cur_req_id` (`None` disables ids)
   cp : List Char                -- `_reqid_connection_part`
 
+/-- a public connection object -/
+structure Conn where
+  impl : Nat                    -- index of its `conn_impl`
+  auths : List (List Char)      -- `Authorization` values set by the adapters of its chain, own adapters first
+
+/-- `RequestArguments.__init__`: `headers.copy() if headers else {}` or (a change of the source)
+`headers or {}`, which keeps the caller's object -/
+inductive HdrInit where
+  | copy
+  | alias
+  deriving DecidableEq, Repr
+
+/-- where the caller's headers come from: a dict built for this call, or a dict object the caller
+keeps and may pass again -/
+inductive HdrSrc where
+  | lit (hs : Headers)
+  | ref (k : Nat)
+
 structure World where
   impls : List Impl
-  conns : List Nat              -- connection → index of its `conn_impl`
+  conns : List Conn
+  dicts : List Headers          -- heap of the caller's long-lived header dicts
 
 structure Cfg where
   prog : List Instr
   fmt : List Piece
   test : HdrTest
   name : List Char
+  init : HdrInit
+  kinds : List (List Char × Bool)   -- connection classes; does the constructor hand the parent's `conn_impl` on?
+
+def World.empty : World := { impls := [], conns := [], dicts := [] }
 
 def World.newImpl (w : World) (cp : List Char) (ids : Bool) : World × Nat :=
-  ({ impls := w.impls ++ [{ ctr := if ids then some 0 else none, cp := cp }],
-     conns := w.conns ++ [w.impls.length] }, w.conns.length)
+  ({ w with impls := w.impls ++ [{ ctr := if ids then some 0 else none, cp := cp }],
+            conns := w.conns ++ [{ impl := w.impls.length, auths := [] }] }, w.conns.length)
 
-/-- a derived connection shares the implementation object of its parent -/
-def World.wrap (w : World) (c : Nat) : Except Err (World × Nat) :=
-  match w.conns[c]? with
-  | some i => .ok ({ w with conns := w.conns ++ [i] }, w.conns.length)
-  | none => .error .indexError
+def World.newDict (w : World) (hs : Headers) : World × Nat :=
+  ({ w with dicts := w.dicts ++ [hs] }, w.dicts.length)
+
+/-- a derived connection of class `cls`: it shares the implementation object of its parent when the
+constructor of the class passes `conn_data` on unchanged (`g.kinds`, read from the source);
+a constructor that does not builds an implementation object of its own (fresh counter) -/
+def World.wrap (g : Cfg) (w : World) (c : Nat) (cls : List Char) (auth : Option (List Char)) :
+    Except Err (World × Nat) :=
+  match w.conns[c]?, g.kinds.lookup cls with
+  | some cn, some true =>
+    .ok ({ w with conns := w.conns ++ [{ impl := cn.impl, auths := auth.toList ++ cn.auths }] },
+         w.conns.length)
+  | some cn, some false =>
+    match w.impls[cn.impl]? with
+    | some im =>
+      .ok ({ w with impls := w.impls ++ [{ ctr := im.ctr.map fun _ => 0, cp := im.cp }],
+                    conns := w.conns ++ [{ impl := w.impls.length, auths := auth.toList ++ cn.auths }] },
+           w.conns.length)
+    | none => .error .indexError
+  | _, _ => .error .indexError
 
 def setImpl (l : List Impl) (i : Nat) (x : Impl) : List Impl := l.set i x
 
-/-- `do_request` as far as ids go: new world and the final header dict -/
-def World.request (g : Cfg) (w : World) (c : Nat) (hs : Headers) : Except Err (World × Headers) :=
+def authName : List Char := "Authorization".toList
+def ctName : List Char := "Content-Type".toList
+def ctJson : List Char := "application/json".toList
+
+/-- the authenticating adapters (`assert 'Authorization' not in headers`, then set it) -/
+def applyAuths : List (List Char) → Headers → Option Headers
+  | [], hs => some hs
+  | a :: rest, hs =>
+    if hs.any (fun kv => kv.1 == authName) then none else applyAuths rest (setHeader hs authName a)
+
+/-- step "4. data": a json body brings its content type unless the caller named one (exact spelling) -/
+def addContentType (hasData : Bool) (hs : Headers) : Headers :=
+  if hasData && !(hs.any fun kv => kv.1 == ctName) then setHeader hs ctName ctJson else hs
+
+/-- step "2. headers" of `do_request` on the dict `hs` of the request arguments: new world and dict -/
+def World.idBranch (g : Cfg) (w : World) (i : Nat) (im : Impl) (hs : Headers) :
+    Except Err (World × Headers) :=
+  match im.ctr with
+  | none => .ok (w, hs)
+  | some n =>
+    if hs.any (fun kv => g.test.holds kv.1) then .ok (w, hs)
+    else match genSeq g.prog n with
+      | .error e => .error e
+      | .ok (v, n') =>
+        .ok ({ w with impls := setImpl w.impls i { im with ctr := some n' } },
+             setHeader hs g.name (render im.cp g.fmt v))
+
+def HdrSrc.read (w : World) : HdrSrc → Option Headers
+  | .lit hs => some hs
+  | .ref k => w.dicts[k]?
+
+/-- with `copy` the request works on its own dict; with `alias` a non-empty caller dict is the dict
+the request writes to -/
+def writeBack (g : Cfg) (w : World) (src : HdrSrc) (hs0 hs : Headers) : World :=
+  match g.init, src with
+  | .alias, .ref k => if hs0.isEmpty then w else { w with dicts := w.dicts.set k hs }
+  | _, _ => w
+
+/-- `do_request` as far as headers go: request arguments, adapters, id, content type;
+new world and the dict handed to `urllib.request.Request` -/
+def World.request (g : Cfg) (w : World) (c : Nat) (src : HdrSrc) (hasData : Bool) :
+    Except Err (World × Headers) :=
   match w.conns[c]? with
   | none => .error .indexError
-  | some i =>
-    match w.impls[i]? with
+  | some cn =>
+    match w.impls[cn.impl]? with
     | none => .error .indexError
     | some im =>
-      match im.ctr with
-      | none => .ok (w, hs)
-      | some n =>
-        if hs.any (fun kv => g.test.holds kv.1) then .ok (w, hs)
-        else match genSeq g.prog n with
+      match src.read w with
+      | none => .error .indexError
+      | some hs0 =>
+        match applyAuths cn.auths hs0 with
+        | none => .error .assertion
+        | some hs1 =>
+          match w.idBranch g cn.impl im hs1 with
           | .error e => .error e
-          | .ok (v, n') =>
-            .ok ({ w with impls := setImpl w.impls i { im with ctr := some n' } },
-                 setHeader hs g.name (render im.cp g.fmt v))
+          | .ok (w1, hs2) =>
+            let hs3 := addContentType hasData hs2
+            .ok (writeBack g w1 src hs0 hs3, hs3)
 
 /-- requests of one thread in a `par` line: connection and caller headers -/
 abbrev ParReq := Nat × Headers
@@ -255,7 +339,7 @@ abbrev ParReq := Nat × Headers
 /-- does this request take a number? (`none`: bad connection) -/
 def needsId (g : Cfg) (w : World) (i : Nat) (r : ParReq) : Option Bool :=
   match w.conns[r.1]? with
-  | some j => if j = i then some (!(r.2.any fun kv => g.test.holds kv.1)) else none
+  | some cn => if cn.impl = i then some (!(r.2.any fun kv => g.test.holds kv.1)) else none
   | none => none
 
 /-- final headers of the requests of one thread, given the numbers the thread was handed -/
@@ -278,7 +362,8 @@ def assembleAll (g : Cfg) (cp : List Char) : List (List ParReq) → List (List N
   | _, _ => none
 
 /-- concurrent requests of several threads through connections that all share implementation `i`,
-under a schedule of the instructions of `_generate_request_id` -/
+under a schedule of the instructions of `_generate_request_id` (plain GET requests: no body; the
+`Authorization` header of the adapters does not take part; caller dicts are read, never written) -/
 def World.par (g : Cfg) (w : World) (i : Nat) (threads : List (List ParReq))
     (sched : List (Nat × Nat)) : Except Err (World × List (List Headers)) :=
   match w.impls[i]? with
